@@ -132,7 +132,7 @@ class FrameReader:
                 f"Got incomplete frame, while trying to read {e.expected} bytes"
             ) from e
 
-        if (checksum := bcc(buffer[:-2])) and checksum != buffer[-2]:
+        if (checksum := bcc(buffer[:-2])) != buffer[-2]:
             raise ChecksumError(
                 f"Incorrect frame checksum ({checksum} != {buffer[-2]})"
             )
